@@ -102,10 +102,34 @@ pub fn apply(o: &mut Object, op: &J, salt: usize) -> J {
 		}
 		"extend" => {
 			let es = build_entries(&op["es"]);
-			if salt % 2 == 0 {
-				o.extend(es)
-			} else {
-				o.extend(es.into_iter().map(|e| (e.key, e.value)))
+			match salt % 5 {
+				0 => o.extend(es),
+				1 => o.extend(es.into_iter().map(|e| (e.key, e.value))),
+				2 => {
+					// an iterator whose size hint has an astronomically large upper bound (nothing may be sized by it)
+					let mut it = es.into_iter();
+					o.extend((0..usize::MAX).map_while(move |_| it.next()));
+				}
+				3 => {
+					let mut it = es.into_iter();
+					o.extend((0..usize::MAX).map_while(move |_| it.next().map(|e| (e.key, e.value))));
+				}
+				_ => {
+					// the feeding iterator panics after its first entry; the panic is caught and the rest is added afterwards:
+					// what was added before the panic must be fully usable
+					let n = es.len();
+					let first: Vec<Entry> = es.iter().take(1).cloned().collect();
+					let rest: Vec<Entry> = es.iter().skip(if n == 0 { 0 } else { 1 }).cloned().collect();
+					let r = std::panic::catch_unwind(std::panic::AssertUnwindSafe(|| {
+						let mut k = 0;
+						o.extend(first.into_iter().chain(std::iter::from_fn(|| -> Option<Entry> {
+							k += 1;
+							if k == 1 { std::panic::resume_unwind(Box::new("feeding iterator gave up")) } else { None }
+						})));
+					}));
+					let _ = r;
+					o.extend(rest);
+				}
 			}
 			json!({"some": false})
 		}
